@@ -11,6 +11,7 @@ package hls
 import (
 	"bytes"
 	"fmt"
+	"math"
 	"strconv"
 
 	"github.com/q191201771/lal/pkg/base"
@@ -58,6 +59,33 @@ func updateTargetDurationInM3u8(content []byte, currDuration int) ([]byte, error
 		content = tmpContent
 	}
 	return content, nil
+}
+
+// calcNextSeqInM3u8
+//
+// @param content content of a live m3u8 file
+//
+// @return nextSeq the sequence number that follows the last ts listed: `EXT-X-MEDIA-SEQUENCE` plus the number of `EXTINF` lines
+// @return ok      false if content has no (sane) `EXT-X-MEDIA-SEQUENCE`
+func calcNextSeqInM3u8(content []byte) (nextSeq int, ok bool) {
+	seq := -1
+	n := 0
+	lines := bytes.Split(content, []byte{'\n'})
+	for _, line := range lines {
+		if bytes.HasPrefix(line, []byte("#EXT-X-MEDIA-SEQUENCE:")) {
+			v, err := strconv.Atoi(string(bytes.TrimPrefix(line, []byte("#EXT-X-MEDIA-SEQUENCE:"))))
+			if err != nil || v < 0 || v > math.MaxInt32 {
+				return 0, false
+			}
+			seq = v
+		} else if bytes.HasPrefix(line, []byte("#EXTINF:")) {
+			n++
+		}
+	}
+	if seq < 0 {
+		return 0, false
+	}
+	return seq + n, true
 }
 
 // CalcM3u8Duration
